@@ -108,6 +108,9 @@ class _RawReader(io.RawIOBase):
     def readable(self):
         return True
 
+    def fileno(self):
+        return self._fs._fake_fileno(self._q)
+
     def readinto(self, b):
         fs = self._fs
         fs._syscall("read", self._q)
@@ -146,6 +149,9 @@ class _RawWriter(io.RawIOBase):
 
     def seekable(self):
         return False
+
+    def fileno(self):
+        return self._fs._fake_fileno(self._q)
 
     def write(self, b):
         fs = self._fs
@@ -249,6 +255,7 @@ class SimFS:
         self.raw_written = {}
         self.open_writers = {}
         self.fds = {}
+        self.fake_fds = {}
         self.nsys = 0
         self.dead = False        # after a crash: nothing reaches the disk any more
         self.crashed = False
@@ -300,6 +307,7 @@ class SimFS:
         self.raw_written = {}
         self.open_writers = {}
         self.fds = {}
+        self.fake_fds = {}
         self.nsys = 0
         self.dead = False
         self.crashed = False
@@ -364,6 +372,32 @@ class SimFS:
         self.trace.append((self.nsys, op, self.rel(q), extra))
         if mut:
             self.mutations.append((self.nsys, op, self.rel(q)))
+
+    def _fake_fileno(self, q):
+        for fd, p in self.fake_fds.items():
+            if p == q:
+                return fd
+        fd = 2_000_000 + len(self.fake_fds)
+        self.fake_fds[fd] = q
+        return fd
+
+    def p_fd_op(self, name, fd, *a):
+        """fsync / fstat / ftruncate / fchmod on a descriptor of a simulated file."""
+        q = self.fake_fds.get(fd) or self.fds[fd][0]
+        self._syscall(name, q, mut=(name in ("ftruncate",)))
+        if name == "fstat":
+            return self._stat_q(q)
+        if name == "ftruncate" and not self.dead and q in self.files:
+            del self.files[q][a[0]:]
+        return None
+
+    def p_noop(self, name, path, *a, **k):
+        """chmod / utime / chown: accepted, traced, no effect on content."""
+        q = self._norm(path)
+        self._syscall(name, q, mut=True)
+        if q not in self.files and q not in self.dirs:
+            self._err(errno.ENOENT, q)
+        return None
 
     def _note_bytes(self, n):
         if self.trace and self.trace[-1][1] in ("read", "write"):
@@ -509,9 +543,8 @@ class SimFS:
         """os.open on a virtual path: a fake descriptor that os.fdopen / open(fd) turns into a file object."""
         q = self._norm(path)
         acc = flags & (os.O_RDONLY | os.O_WRONLY | os.O_RDWR)
-        if acc == os.O_RDWR:
-            raise SimUnsupported("os.open(%r, O_RDWR)" % (path,))
         kind = "r" if acc == os.O_RDONLY else ("a" if flags & os.O_APPEND else "w")
+        # O_RDWR: the direction is decided by the mode given to fdopen/open(fd)
         self._syscall("open", q, extra=kind, mut=(kind != "r"))
         self._open_checks(q, kind)
         if kind != "r":
@@ -557,6 +590,10 @@ class SimFS:
         if isinstance(file, int):
             # open(fd) / os.fdopen(fd) on a descriptor from p_os_open
             q, fkind = self.fds.pop(file)
+            if "r" in mode and "+" not in mode:
+                fkind = "r"
+            elif "+" in mode:
+                raise SimUnsupported("open(fd, %r)" % mode)
             bs = self.knobs.get("bufsize") or io.DEFAULT_BUFFER_SIZE
             if fkind == "r":
                 raw = _RawReader(self, q, self.files.get(q, b""), self._find_fault(("eio_read",), q))
@@ -651,7 +688,10 @@ class SimFS:
             wrapper.__name__ = name
             setattr(os, name, wrapper)
 
-        sims = {"stat": self.p_stat, "lstat": self.p_stat, "scandir": self.p_scandir,
+        import functools
+        sims = {"chmod": functools.partial(self.p_noop, "chmod"), "utime": functools.partial(self.p_noop, "utime"),
+                "chown": functools.partial(self.p_noop, "chown"),
+                "stat": self.p_stat, "lstat": self.p_stat, "scandir": self.p_scandir,
                 "listdir": self.p_listdir, "mkdir": self.p_mkdir, "rmdir": self.p_rmdir,
                 "unlink": self.p_unlink, "remove": self.p_unlink, "rename": self.p_rename,
                 "replace": self.p_rename}
@@ -677,6 +717,28 @@ class SimFS:
             return real_os_close(fd)
 
         os.close = os_close
+        if hasattr(os, "sendfile"):
+            real_sendfile = os.sendfile
+            saved["sendfile"] = real_sendfile
+
+            def sendfile(out_fd, in_fd, *a, **k):
+                if out_fd in fs.fake_fds or in_fd in fs.fake_fds or out_fd in fs.fds or in_fd in fs.fds:
+                    raise OSError(errno.ENOTSOCK, "sendfile is not available for simulated files")
+                return real_sendfile(out_fd, in_fd, *a, **k)
+
+            os.sendfile = sendfile
+        for name in ("fsync", "fdatasync", "fstat", "ftruncate", "fchmod"):
+            real = getattr(os, name, None)
+            if real is None:
+                continue
+            saved[name] = real
+
+            def fdwrap(fd, *a, _real=real, _name=name, **k):
+                if isinstance(fd, int) and (fd in fs.fake_fds or fd in fs.fds):
+                    return fs.p_fd_op(_name, fd, *a)
+                return _real(fd, *a, **k)
+
+            setattr(os, name, fdwrap)
         real_open = builtins.open
         real_io_open = io.open
 
